@@ -258,19 +258,25 @@ LEVEL_TEXT["C17"] = {
 }
 
 PROPS["C04"] = {
-    "targets": [vt("props/C04_rw_mutex_vt.cpp", 15000, 60, 200000, 600)],
+    "targets": [vt("props/C04_rw_mutex_vt.cpp", 15000, 60, 200000, 600),
+                seq("props/C04_rw_mutex_stress.cpp", 120, 40, 4000, 600, shards=2, engine="E-stress")],
     "rule": "case = request sequence over {read, readwrite} of length 1..8 issued by one logical thread (as the API requires) x per request a "
             "starter thread, an action (connect+start / drop the sender unstarted / additionally start a copy of the read sender), start "
             "delay, hold time, optional copy of the read wrapper released later x optional early destruction of the mutex x schedule tape "
             "with decision points in add_op_state (before the CAS) and done() (around the exchange); non-trivial iff >=2 access groups and "
-            "(a read group with >=2 reads or an unstarted drop) and the schedule really interleaved the threads; distinct by hash",
+            "(a read group with >=2 reads or an unstarted drop) and the schedule really interleaved the threads; distinct by hash. Second target "
+            "(real OS threads, E-stress): request sequence of length 2..8 issued in order by the main thread x per request one of 2..4 std::threads "
+            "that starts it (or drops it unstarted), hold time, optional wrapper copy x 300..3000 rounds on a fresh mutex with the generated start "
+            "skews swept; oracle: occupancy counters (read-write alone, reads only with reads), at grant time every started access of every earlier "
+            "group has been released (bookkeeping before the wrapper is destroyed), value == number of earlier started read-write accesses, every "
+            "started request granted exactly once and within 10 s of all earlier ones being released; non-trivial iff >=2 groups",
     "floor": {"quick": 200, "thorough": 2000},
     "assumptions": ["accesses dropped unstarted are granted/released by start_detached invisibly to the harness; order oracles range over observed accesses",
                     "SC interleavings at hook/agent granularity"],
 }
 LEVEL_TEXT["C04"] = {
     "text": "The real async_rw_mutex<int> runs on harness-owned virtual threads: generated request sequences, starter placement, drops, sender and wrapper copies and early mutex destruction under generated schedules with decision points inside the lock-free queue hand-off. Oracles over the grant/release log: no read-write access overlaps anything, reads overlap only reads of the same group, no access is granted before all observed accesses of earlier groups are released, each started access is granted exactly once and eventually (a waiting access in an all-blocked state is reported exactly), and every access observes the number of earlier read-write increments (value outlives the mutex).",
-    "note": "Schedules sampled from generated tapes; SC interleavings at hook granularity.",
+    "note": "Schedules sampled from generated tapes; SC interleavings at hook granularity. A second target (E-stress) runs the same kind of request sequences with the starts, holds and releases on real OS threads (windows inside one atomic operation, real memory ordering); there the schedule is not owned, a miss proves nothing.",
     "technique": "property-based testing with harness-owned deterministic schedules, grant/release history invariants",
 }
 
@@ -284,7 +290,7 @@ PROPS["C03"] = {
             "(1..3 consumers), split_tuple, unpack, bulk, any_sender copy, when_all (2..3), when_all_vector (1..3)}; every edge erased to "
             "unique_any_sender<P> so the real adaptors compose at run time; terminal = own receiver (connect+start) or sync_wait; run on the "
             "real runtime (1..4 workers, 8 policies, perturbation); non-trivial iff depth >= 3 and (a non-value leaf or a shared-state "
-            "adaptor with an asynchronous leaf beneath it); distinct by hash of the decoded case. Race target (E-vt): adaptor in {split, ensure_started, split(ensure_started), split_tuple, when_all, when_all_vector} over 1..3 leaf senders whose completion (value / error / stopped, inline or by a designated logical thread after a delay) races with 1..3 consumers being connected and started (or dropped unstarted) by other logical threads; decision points at hook sites 120-130 inside the adaptors' predecessor_done / continuation hand-off and finish() counters, at spinlock and agent operations; oracle: every started consumer gets exactly one admissible completion, no predecessor is started twice, any all-blocked/spinning state is a lost completion; non-trivial iff a consumer start overlapped a predecessor completion. Real-thread race target (E-stress): the same adaptors with 2..4 consumers that connect/start at (nearly) the same instant on their own OS threads while one more OS thread per predecessor completes it, repeated for 300..3000 rounds per case with the generated start skews swept over a span of 8..4096 spin iterations; oracle per round: predecessor operation started exactly once, exactly one admissible completion per consumer, no consumer without a signal 5 s after every predecessor completed; non-trivial iff two actors were inside the adaptor at once in some round",
+            "adaptor with an asynchronous leaf beneath it); distinct by hash of the decoded case. Race target (E-vt): adaptor in {split, ensure_started, split(ensure_started), split_tuple, when_all, when_all_vector} over 1..3 leaf senders whose completion (value / error / stopped, inline or by a designated logical thread after a delay) races with 1..3 consumers being connected and started (or dropped unstarted) by other logical threads; decision points at hook sites 120-130 inside the adaptors' predecessor_done / continuation hand-off and finish() counters, at spinlock and agent operations; oracle: every started consumer gets exactly one admissible completion, no predecessor is started twice, any all-blocked/spinning state is a lost completion or (with the poisoning allocator) a thread stuck on freed memory; in half of the cases every consumer's operation state is destroyed by its starter as soon as it has seen the completion signal (as sync_wait / start_detached do) instead of at the end of the case; non-trivial iff a consumer start overlapped a predecessor completion. Real-thread race target (E-stress): the same adaptors with 2..4 consumers that connect/start at (nearly) the same instant on their own OS threads while one more OS thread per predecessor completes it, repeated for 300..3000 rounds per case with the generated start skews swept over a span of 8..4096 spin iterations; oracle per round: predecessor operation started exactly once, exactly one admissible completion per consumer, no consumer without a signal 5 s after every predecessor completed; non-trivial iff two actors were inside the adaptor at once in some round",
     "floor": {"quick": 100, "thorough": 1000},
     "assumptions": ["when_all with several failing children may deliver any one of their non-value signals (set-valued oracle)",
                     "sync_wait is only used on terms that cannot complete with stopped (its return type cannot express it)",
